@@ -142,6 +142,15 @@ pub fn c04(o: &Opts) -> Outcome {
         }
         return Outcome { cases: 1, witness: c04_batch(&[s], k, norm) };
     }
+    // records without bases at the end of the input and as the whole input, on both writers and with a ceiling that flushes every record
+    for recs in [vec![b"ACGTACGT".to_vec(), vec![], vec![]], vec![vec![], vec![]], vec![vec![], b"ACGGT".to_vec(), vec![]]] {
+        for norm in [false, true] {
+            for memory in [None, Some(1usize)] {
+                cases += recs.len() as u64;
+                if let Some(w) = c04_batch_cfg(&recs, 3, norm, 3, memory) { return Outcome { cases, witness: Some(w) }; }
+            }
+        }
+    }
     // one worker and many workers; a memory ceiling that splits the records into several batches (one record per batch and
     // a few records per batch); blanks and tabs inside a record (they are bytes like any other non-nucleotide byte)
     {
@@ -194,6 +203,8 @@ pub fn c04(o: &Opts) -> Outcome {
     {
         let mut recs: Vec<Vec<u8>> = Vec::new();
         for a in 1..=40usize { for b in [1usize, 2, 3, 7, 11, 29] { let mut r = vec![b'A'; a + 2]; r.push(b'N'); r.extend(vec![b'C'; b + 2]); recs.push(r); } }
+        // exact ties at the seventh decimal: a/128 and a/64 for odd a (0.0078125, 0.0234375, ...)
+        for total in [128usize, 64, 640] { for a in [1usize, 3, 5, 7, 9, 11, 13, 21, 33, 63] { let b = total - a; let mut r = vec![b'A'; a + 2]; r.push(b'N'); r.extend(vec![b'C'; b + 2]); recs.push(r); } }
         cases += 2 * recs.len() as u64;
         if let Some(w) = stdin_batch(&recs, 3, true) { return Outcome { cases, witness: Some(w) }; }
         if let Some(w) = c04_batch_cfg(&recs, 3, true, 4, None) { return Outcome { cases, witness: Some(w) }; }
@@ -517,6 +528,18 @@ fn stdin_batch(recs: &[Vec<u8>], k: usize, norm: bool) -> Option<Vec<(String, St
         let lines: Vec<&str> = text.split('\n').collect();
         if lines.len() != recs.len() + 1 { why = format!("streamed input: {} rows for {} records", lines.len() - 1, recs.len()); }
         else { for (i, r) in recs.iter().enumerate() { if let Err(e) = row_matches(lines[i], r, k, norm, " ") { why = format!("streamed input, row {}: {}", i, e); break; } } }
+        // the two writers render the same numbers: the file written from streamed input (batched writer) equals, byte for
+        // byte, the file written from a file input (mapped writer when normalised)
+        if why.is_empty() {
+            if let Ok(file_text) = run_oligo(recs, k, norm, 2, " ", false, None) {
+                if file_text != text {
+                    let fl: Vec<&str> = file_text.split('\n').collect();
+                    let row = lines.iter().zip(fl.iter()).position(|(a, b)| a != b).unwrap_or(0);
+                    why = format!("streamed input and file input give different text for the same records (first difference in row {}: {:?} vs {:?})", row,
+                                  lines.get(row).map(|l| &l[..l.len().min(60)]), fl.get(row).map(|l| &l[..l.len().min(60)]));
+                }
+            }
+        }
     }
     if why.is_empty() { None } else {
         Some(vec![("seq".into(), recs.iter().map(|r| show(r)).collect::<Vec<_>>().join("|")), ("k".into(), k.to_string()), ("norm".into(), norm.to_string()), ("input".into(), "stdin (-)".into()), ("why".into(), why)])
